@@ -40,7 +40,10 @@ if [ $rc -ne 0 ]; then
   # tests that time out under machine load (300 s nextest limit) are re-run alone
   for t in $(python3 -c "import re,sys; print(' '.join(x.split('::',1)[1] for x in re.findall(r\"'([^']+)'\", open('/tmp/vv/cmp.out').read())))"); do
     echo "re-run alone: $t"
-    cargo nextest run --workspace --offline --no-fail-fast --tool-config-file pb:/w/lib/nextest.toml --profile pb "$t" 2>&1 | grep -E "PASS|FAIL|TIMEOUT|Summary" | tail -3
+    # same test, alone, with a longer limit (the pinned profile stops a test after 300 s; on the loaded 16-core sandbox this CPU-bound
+    # codec test needs 150-400 s in a debug build)
+    printf '[profile.long]\nfail-fast = false\nslow-timeout = { period = "120s", terminate-after = 10 }\n' > /tmp/vv/nextest_long.toml
+    cargo nextest run --workspace --offline --no-fail-fast --tool-config-file pb:/tmp/vv/nextest_long.toml --profile long "$t" 2>&1 | grep -E "PASS|FAIL|TIMEOUT|Summary" | tail -3
   done
 fi
 echo "== $S: original code"
